@@ -12,3 +12,15 @@ Proof.
   destruct i as [|[|[|i]]]; [| | |lia]; (destruct j as [|[|[|j]]]; [| | |lia]);
     apply Qc_is_canon; vm_compute; reflexivity.
 Qed.
+
+(* the all-ones 3x3 matrix (the witness of the repaired defect) has no right inverse *)
+From OV Require Import Legacy.C02Refuted.
+Lemma ones3_no_right_inverse :
+  ~ (exists Nf : nat -> nat -> AQ, forall i j, (i < rows ones3)%nat -> (j < rows ones3)%nat -> mprod (rows ones3) (ent ones3) Nf i j = delta i j).
+Proof.
+  intros (Nf & H).
+  pose proof (H 0%nat 0%nat ltac:(cbn; lia) ltac:(cbn; lia)) as H0.
+  pose proof (H 1%nat 0%nat ltac:(cbn; lia) ltac:(cbn; lia)) as H1.
+  unfold mprod, ent in H0, H1. cbn [rows ones3 cols buf Nat.mul Nat.add nth sum_n] in H0, H1.
+  rewrite H0 in H1. unfold delta in H1. cbn in H1. discriminate H1.
+Qed.
